@@ -176,7 +176,10 @@ def raw_equiv_quoted(t1: str, t2: str, q1: bool, q2: bool) -> bool:
 
 
 # ---- wrapping is repeatable: what an earlier wrapper (or whoever used it) did to its token list never shows in a later wrapper of the same input
-LINES = ["help deploy", "deploy", "deploy -h", "deploy x -- -h", "help", ""]
+LINES = ["help deploy", "deploy", "deploy -h", "deploy x -- -h", "help", "", "deploy --file -- -y", 'say "hello', "it's", 'deploy "a b" \'c\'']
+# what each line's tokens are, and - where the statement fixes it - the command and assignment it resolves to (None = only string/argv equality is checked)
+TOKENS = {0: ["help", "deploy"], 1: ["deploy"], 2: ["deploy", "-h"], 3: ["deploy", "x", "--", "-h"], 4: ["help"], 5: [], 6: ["deploy", "--file", "--", "-y"], 7: ["say", "hello"], 8: ["its"], 9: ["deploy", "a b", "c"]}
+EXPECT = {1: ("deploy", {}, {}), 3: ("deploy", {"target": "x", "more": ["-h"]}, {}), 6: ("deploy", {"target": "-y"}, {"file": "dflt"}), 9: ("deploy", {"target": "a b", "more": ["c"]}, {})}
 
 
 def _history_app():
@@ -187,7 +190,10 @@ def _history_app():
     cfg.set_catch_exceptions(True)
     cfg.set_terminate_after_run(False)
     with cfg.command("deploy") as c:
+        from clikit.api.args.format.option import Option
         c.add_argument("target", Argument.OPTIONAL)
+        c.add_argument("more", Argument.MULTI_VALUED)
+        c.add_option("file", "f", Option.OPTIONAL_VALUE, None, "dflt")
         c.set_handler_method("handle")
         c.set_handler(type("H", (), {"handle": lambda self, args, io: 0})())
     return ConsoleApplication(cfg)
@@ -205,19 +211,21 @@ def _history_case(i1, how, i2):
         del first.tokens[0]
     elif how == 2:
         first.tokens.append("zz")
-    argv = ["prog"] + l2.split()
+    argv = ["prog"] + list(TOKENS[i2])
     keep = list(argv)
     s, a = StringArgs(l2), ArgvArgs(argv)
-    if argv != keep or s.tokens != l2.split() or a.tokens != l2.split() or s.option_tokens != a.option_tokens:
+    if argv != keep or s.tokens != TOKENS[i2] or a.tokens != TOKENS[i2] or s.option_tokens != a.option_tokens:
         return False
     fresh = _history_app()
     outs = []
     for raw in (s, a):
         try:
             rc = fresh.resolve_command(raw)
-            outs.append((rc.command.name, rc.args.arguments(), rc.args.options()))
+            outs.append((rc.command.name, rc.args.arguments(False), {k: v for k, v in rc.args.options(False).items() if k == "file"}))
         except Exception as e:  # noqa
             outs.append((type(e).__name__, str(e)))
+    if i2 in EXPECT and outs[0] != EXPECT[i2]:
+        return False                  # tokens after the first '--' are positional; quoted tokens arrive whole
     return outs[0] == outs[1]
 
 
@@ -226,8 +234,9 @@ def raw_history(i1: int, how: int, i2: int) -> bool:
     pre: 0 <= i1 < len(LINES) and 0 <= i2 < len(LINES) and 0 <= how <= 2
     post: _
     """
-    from vf.sym import conc_int, untraced
-    return untraced(_history_case, conc_int(i1, 0, len(LINES) - 1), conc_int(how, 0, 2), conc_int(i2, 0, len(LINES) - 1))
+    from vf.sym import conc_int, isolated
+    # each case in a forked child: process-wide state of the code under test (a shared tokenizer, a cache) then comes from THIS case's history only
+    return isolated(_history_case, conc_int(i1, 0, len(LINES) - 1), conc_int(how, 0, 2), conc_int(i2, 0, len(LINES) - 1))
 
 
 def conditions(tier):
